@@ -183,7 +183,7 @@ fn documents(thorough: bool) -> Vec<String> {
         }
     }
     // fragment sequences: misnested formatting, tables, reply fallback, comments
-    let frags = ["<b>", "</b>", "<p>", "</p>", "<a href=\"https://x\">", "</a>", "<div>", "</div>", "t", "<!-- c -->", "<mx-reply>", "</mx-reply>", "<table><td>", "<script>"];
+    let frags = ["<hr>", "<b>", "</b>", "<p>", "</p>", "<a href=\"https://x\">", "</a>", "<div>", "</div>", "t", "<!-- c -->", "<mx-reply>", "</mx-reply>", "<table><td>", "<script>"];
     let mut layer = vec![String::new()];
     for _ in 0..(if thorough { 5 } else { 4 }) {
         let mut next = vec![];
@@ -216,14 +216,20 @@ fn run_docs(docs: &[String]) -> (u64, Fails, u64, Vec<Value>) {
     let mut nontrivial = 0u64;
     let mut samples: Vec<Value> = vec![];
     let (mut n, mut f_allow, mut f_text, mut f_idem, mut f_clean, mut f_depr, mut f_panic) = (0u64, vec![], vec![], vec![], vec![], vec![], vec![]);
-    let configs: [(&str, bool, bool); 4] = [("strict", false, false), ("compat", true, false), ("strict+remove_reply_fallback", false, true), ("compat+remove_reply_fallback", true, true)];
+    // (name, compat, reply fallback removed, 0 = no element list / 1 = remove_elements([hr]) set after / 2 = set before the fallback removal)
+    let configs: [(&str, bool, bool, u8); 6] = [
+        ("strict", false, false, 0), ("compat", true, false, 0), ("strict+remove_reply_fallback", false, true, 0), ("compat+remove_reply_fallback", true, true, 0),
+        ("strict+remove_reply_fallback+remove_elements[hr]", false, true, 1), ("compat+remove_elements[hr]+remove_reply_fallback", true, true, 2),
+    ];
     for d in docs {
-        for (cname, compat, rr) in configs {
+        for (cname, compat, rr, rm) in configs {
             n += 1;
             let r = std::panic::catch_unwind(|| {
                 let mk = || {
                     let c = if compat { SanitizerConfig::compat() } else { SanitizerConfig::strict() };
-                    if rr { c.remove_reply_fallback() } else { c }
+                    let c = if rm == 2 { c.remove_elements(["hr"]) } else { c };
+                    let c = if rr { c.remove_reply_fallback() } else { c };
+                    if rm == 1 { c.remove_elements(["hr"]) } else { c }
                 };
                 let input = Html::parse(d);
                 let t0 = forest(&input);
@@ -253,6 +259,9 @@ fn run_docs(docs: &[String]) -> (u64, Fails, u64, Vec<Value>) {
                     }
                     let mut why = vec![];
                     judge(&t2, 0, compat, rr, &mut why);
+                    if rm != 0 && out.contains("<hr") {
+                        why.push("an <hr> element survives remove_elements([\"hr\"])".into());
+                    }
                     if !why.is_empty() {
                         why.truncate(4);
                         fail(&mut f_allow, json!({"document": d, "config": cname, "sanitized": out, "violations": why}));
@@ -270,7 +279,7 @@ fn run_docs(docs: &[String]) -> (u64, Fails, u64, Vec<Value>) {
                     // a document that already satisfies the judgement is returned unchanged
                     let mut why0 = vec![];
                     judge(&t0, 0, compat, rr, &mut why0);
-                    if why0.is_empty() && out != plain {
+                    if why0.is_empty() && !(rm != 0 && plain.contains("<hr")) && out != plain {
                         fail(&mut f_clean, json!({"document": d, "config": cname, "parse_and_reserialize": plain, "sanitized": out}));
                     }
                     // deprecated elements are rewritten, content and remaining attributes preserved
@@ -327,7 +336,7 @@ pub fn run(tier: &str) -> Report {
         samples,
     ));
     Report {
-        bound: format!("{} documents (20 element names x attribute singles and ordered pairs x 3 contents, all ordered name pairs, fragment sequences up to length {}, nesting 98..103) x 4 sanitizer configurations", docs.len(), if tier == "thorough" { 5 } else { 4 }),
+        bound: format!("{} documents (20 element names x attribute singles and ordered pairs x 3 contents, all ordered name pairs, fragment sequences up to length {}, nesting 98..103) x 6 sanitizer configurations (strict / compat, with and without reply-fallback removal, and combined with remove_elements in both call orders)", docs.len(), if tier == "thorough" { 5 } else { 4 }),
         cases: n,
         obligations: vec![
             ("output_has_only_allowed_elements_attributes_schemes_classes_and_depth", n, acc.0),
